@@ -5,6 +5,14 @@ import "time"
 var _ = time.Second
 
 func init() {
+	reg("C01", propCfg{
+		index: 1,
+		rule: "cases are configurations valid by construction over a fixture universe in which every referenced Go symbol exists: (a) rapid-generated batches (creation method x value/type forms x getters x scopes x tags/calls/withers/fields/decorators x parameter literal types and pattern shapes x import spellings and alias tables x 1..3 input files x {normal, --stub}); (b) a feature lattice of hand-minimal configurations, every single feature in both modes and feature pairs. Each accepted output is checked for gofmt-stability, complete parse, header and build constraint, compiled with the real Go toolchain against the pinned runtime inside the fixture module, linked into a probe and initialised. Non-trivial = at least one service and at least three distinct feature labels; distinct by hash of (files, style, mode)",
+		assume: []string{
+			"configured identifiers come from pools that exclude Go keywords, predeclared names and the fixture catalog (the property's precondition)",
+			"configurations the tool rejects are counted under excluded.rejected-by-tool and are not C01's concern",
+		},
+	})
 	reg("C18", propCfg{
 		index: 18,
 		rule: "cases are (build version B, declared version V) pairs: the full 96x96 grid (majors 0..3 x minors 0..3 x patches {0,7} x {release,-rc.1,+build5}), non-semver builds, absent and 17 malformed declared versions, random strict semvers beyond the grid (huge numbers, long prerelease/build suffixes), and a sample through binaries linked with -X main.version; each is run end to end and the verdict (accept / reject in the version check / YAML parse error) is compared with an independent strict-semver implementation of the stated rule. Non-trivial = B and V both valid semantic versions, V is a string and V != B; distinct by hash of the case",
